@@ -58,6 +58,11 @@ class H(common.Harness):
             if eng.choose([z3.Bool(f"ph{i}"), z3.Not(z3.Bool(f"ph{i}"))]) == 0:
                 page, d["placeholder"] = None, True
             c.groups = {"volume": Atom(d["vol"]), "reporter": Atom(d["rep"]), "page": page}
+            if kind != "full_journal" and eng.choose([z3.Bool(f"xg{i}"), z3.Not(z3.Bool(f"xg{i}"))]) == 0:
+                # the other groups case extractors of the database capture (a year inside the reporter's own
+                # pattern, a nominative reporter in parentheses): arbitrary values that must not matter
+                d["xg"] = {"year": eng.fresh_int("gyear"), "reporter_nominative": eng.fresh_int("gnomr"), "volume_nominative": eng.fresh_int("gnomv")}
+                c.groups.update({k: Atom(v) for k, v in d["xg"].items()})
             if kind != "full_journal":
                 cfg = CONFIGS[eng.choose([z3.Int(f"cfg{i}") == j for j in range(len(CONFIGS))])]
                 d["cfg"] = cfg
@@ -165,6 +170,8 @@ class H(common.Harness):
             for k in ("vol", "rep", "page"):
                 if d[k] is not None:
                     w[k] = mval(m, d[k])
+            if d.get("xg"):
+                w["xg"] = {k: mval(m, v) for k, v in d["xg"].items()}
             out.append(w)
         w = {"citations": out, "pool": [mval(m, x) for x in self.pool_ids], "mutation": getattr(self, "mutation", None)}
         if w["mutation"] == "page":
@@ -287,6 +294,8 @@ def build_concrete(w):
         kind = d["kind"]
         if kind in ("full_case", "short_case", "full_journal"):
             groups = {"volume": str(d["vol"]), "reporter": "R" + str(d["rep"]), "page": "___" if d["placeholder"] else str(d["page"])}
+            for k, v in (d.get("xg") or {}).items():
+                groups[k] = "G" + str(v)
             tok = M.CitationToken("x", 0, 1, groups=groups)
             cls = {"full_case": M.FullCaseCitation, "short_case": M.ShortCaseCitation, "full_journal": M.FullJournalCitation}[kind]
             kw = {}
@@ -423,7 +432,7 @@ def check(rep):
     N = 2 if quick else 3
     rep.bounds.append(f"{N} citations at a time (pairs: equality/hash/resource agreement and the spec; triples in the thorough tier add transitivity); kinds {KINDS}; candidate editions from a pool of 2 with 7 exact/variation configurations; volume, page, reporter symbolic")
     rep.outside += ["corrected_citation() round trip through the extractor (needs the regex engines); years (guess_edition with a year is decided in C18)", "supra and reference citations (the property does not state their equality)"]
-    rep.stubs += ["hash_sha256: injective (collision-free); id() values differ from digests and from each other", "context fields (metadata, year, spans, index) are poisoned: any read raises"]
+    rep.stubs += ["hash_sha256: injective (collision-free); id() values differ from digests and from each other", "context fields (metadata, year, spans, index) are poisoned: any read raises", "case citations optionally carry the other regex groups of the database's case extractors (year, reporter_nominative, volume_nominative) with arbitrary values"]
     agg = common.explore_split("vf.harness.c16", {"N": N}, depth=3 if quick else 4)
     rep.merge_explore("equality", agg)
     n_ob = sum(agg["verdicts"].values())
